@@ -56,7 +56,7 @@ def mixed_text(r):
         elif k < 0.9:
             lines.append(CC.gen_redirect_rules(r, k=1).strip())
         else:
-            lines.append(r.pick(["alias g git", "set log-full", "# c", "after git push \"ci\""]))
+            lines.append(r.pick(["alias g git", "set log-full", "# c", "after git push \"ci\"", "allow ~nosuchuser/bin/deploy *", "deny ~root/x", "allow-redirect ~nosuchuser/out/**", "alias ~nobody9/bin/t abc", "ask ~*/x", "deny-redirect ~/.ssh/**"]))
     return [l for l in lines if l]
 
 
@@ -91,7 +91,21 @@ def search(ctx):
         sh_edit = sh_edit[: r.randint(0, len(sh_edit))] + ([r.pick(["deny *", "allow git *", "deny-redirect **"])] if r.chance(0.4) else [])
         text_sh_edit = "\n".join(mcp_lines[: len(mcp_lines) // 2] + sh_edit + mcp_lines[len(mcp_lines) // 2 :]) + "\n"
         # NB: the relative order of mcp lines is kept in text_sh_edit, of shell lines in text_mcp_edit
-        cfg, cfg_m, cfg_s = C.parse_config(text), C.parse_config(text_mcp_edit), C.parse_config(text_sh_edit)
+        def P(t):
+            # a configuration text that makes the loader raise is answered {} (defer) by the hook for every tool and every command
+            try:
+                return C.parse_config(t)
+            except Exception as e:  # noqa: BLE001
+                stats["parse_raised"] += 1
+                return e
+
+        cfg, cfg_m, cfg_s = P(text), P(text_mcp_edit), P(text_sh_edit)
+        if isinstance(cfg, Exception) != isinstance(cfg_s, Exception) or isinstance(cfg, Exception) != isinstance(cfg_m, Exception):
+            which = "shell" if isinstance(cfg, Exception) != isinstance(cfg_s, Exception) else "mcp"
+            vios.append({"input": {"config": text, "config_edited": text_sh_edit if which == "shell" else text_mcp_edit}, "observed": {"parse": repr(cfg)[:200], "parse_edited": repr(cfg_s if which == "shell" else cfg_m)[:200]}, "required": "editing the lines of one family never makes the configuration (hence every verdict of the other family) unavailable", "oracle": "family-edit-keeps-config-loadable"})
+            continue
+        if isinstance(cfg, Exception):
+            continue
         if text not in seen:
             seen.add(text)
             stats["distinct"] += 1
@@ -223,6 +237,15 @@ def replay(payload) -> int:
     from dippy.core.analyzer import analyze
 
     inp = payload["input"]
+    if "tool" not in inp and "command" not in inp:
+        for k in ("config", "config_edited"):
+            try:
+                C.parse_config(inp[k])
+                print(k, "parses")
+            except Exception as e:  # noqa: BLE001
+                print(k, "raises", repr(e))
+        print("required:", payload.get("required"))
+        return 1
     if "layers_user_project_env" in inp:
         L = Layers()
         try:
